@@ -91,7 +91,7 @@ theorem stripToks_lex_of_markerFree : ∀ (s : Str), markerFree s = true → str
 
   `errText` follows the real `Error()` methods: `withPrefix`, `opaqueWrapper` and `joinError`
   print their cause through the formatting engine (`redact.Sprint(err).StripMarkers()`), the
-  others concatenate.  For a cause over regular ASCII text (`RegE`, Proofs/Regular.lean) the two
+  others concatenate.  For a cause over regular text (`RegE`, Proofs/Regular.lean) the two
   coincide, so the composition law holds of the engine-computed text as well. -/
 
 /-- every wrapper: Error() is the compositional text over the cause's Error() -/
